@@ -10,7 +10,7 @@ from hypothesis import strategies as st
 
 from vlib.catalogue import ALL_TYPES, TYPES
 
-HEAVY_TYPES = ("alldifferent", "gcc", "lexicographic_leq", "element_iv", "element_lic", "element_liv", "count_eq", "exactly_eq")
+HEAVY_TYPES = ("alldifferent", "gcc", "lexicographic_leq", "element_iv", "element_lic", "element_liv", "count_eq", "exactly_eq", "scc", "no_sub_cycle")
 
 # ----------------------------------------------------------------------------------------------
 # helpers
@@ -107,7 +107,7 @@ def box_case(draw, types=None, max_n=4, max_w=3, lo=-3, hi=4, allow_zero_cap=Tru
         vb = draw(interval(lo - 1, hi + 1, mw))
         return {"type": name, "params": params, "box": [ib, vb]}
     n_lo = t.min_n
-    n = draw(st.integers(n_lo, max(n_lo, max_n + (1 if name in ("alldifferent", "gcc") else 0))))  # Hall intervals need room
+    n = draw(st.integers(n_lo, max(n_lo, max_n + (1 if name in ("alldifferent", "gcc", "scc", "no_sub_cycle") else 0))))  # Hall intervals / graphs need room
     if t.even:
         n = 2 * draw(st.integers(1, max(2, max_n - 1)))  # lexicographic: up to max_n-1 pairs
     if t.boolean:
